@@ -256,7 +256,7 @@ Proof.
   intros Hl Hn Hx Hy. rewrite bestfit_r2_is_pearson_sq, Pearson_sq by assumption.
   pose proof (RSS_lsq x y Hl Hx) as HR. destruct (@lsq_fit RNum x y) as [b m].
   rewrite linear_transform_R, r2_def. unfold R2c. rewrite HR, <- Sxx_TSS.
-  destruct (Req_EM_T (Sxy y y) 0) as [E|E]; [lra|]. field. lra.
+  change (T RNum) with R. destruct (Req_EM_T (Sxy y y) 0) as [E|E]; [lra|]. field. lra.
 Qed.
 (* Pearson^2 = 1 - RSS_lsq / TSS, and therefore  0 <= r2(x, y) <= 1  (Cauchy-Schwarz) *)
 Theorem pearson_sq_is_1_minus_rss_over_tss (x y : list R) :
@@ -275,3 +275,219 @@ Proof.
   - rewrite bestfit_r2_is_pearson_sq by assumption. apply sq_nonneg.
   - rewrite bestfit_r2_is_lsq_r2 by assumption. apply r2_le_1.
 Qed.
+
+(* ====================== C17: distance to a segment / to a line ====================== *)
+Definition dist2 (p q : R * R) : R := (fst p - fst q) * (fst p - fst q) + (snd p - snd q) * (snd p - snd q).
+Definition crossR (u v : R * R) : R := fst u * snd v - snd u * fst v.
+Definition vsubR (p q : R * R) : R * R := (fst p - fst q, snd p - snd q).
+(* the point a + lam (b - a) *)
+Definition on_line (a b : R * R) (lam : R) : R * R := (fst a + lam * (fst b - fst a), snd a + lam * (snd b - snd a)).
+(* parameter of the orthogonal projection of p onto the line a b *)
+Definition proj_param (a b p : R * R) : R :=
+  ((fst p - fst a) * (fst b - fst a) + (snd p - snd a) * (snd b - snd a)) / dist2 b a.
+
+Lemma sqrt_sq_sum_pos (dx dy : R) : (dx <> 0 \/ dy <> 0) -> 0 < sqrtR (dx * dx + dy * dy).
+Proof.
+  intros H. apply sqrt_lt_R0. pose proof (sq_nonneg dx). pose proof (sq_nonneg dy).
+  destruct H as [H|H]; [assert (0 < dx * dx) by nra|assert (0 < dy * dy) by nra]; lra.
+Qed.
+
+(* the arithmetic core, in coordinates relative to a:  q = p - a, d = b - a, n = |d| *)
+Lemma seg_core (qx qy dx dy n : R) : 0 < n -> n * n = dx * dx + dy * dy ->
+  let W := qx * dx + qy * dy in
+  let C := qx * dy - qy * dx in
+  let s := (- qx) * (dx / n) + (- qy) * (dy / n) in
+  let t := (qx - dx) * (dx / n) + (qy - dy) * (dy / n) in
+  let c := qx * (dy / n) - qy * (dx / n) in
+  let h := Rmax (Rmax s t) 0 in
+  let u := W / (dx * dx + dy * dy) in
+  (u <= 0 -> h * h + c * c = qx * qx + qy * qy) /\
+  (1 <= u -> h * h + c * c = (qx - dx) * (qx - dx) + (qy - dy) * (qy - dy)) /\
+  (0 <= u <= 1 -> h * h + c * c = C * C / (dx * dx + dy * dy)) /\
+  (forall lam, 0 <= lam <= 1 -> h * h + c * c <= (qx - lam * dx) * (qx - lam * dx) + (qy - lam * dy) * (qy - lam * dy)) /\
+  (c * c = C * C / (dx * dx + dy * dy)) /\
+  (forall lam, c * c <= (qx - lam * dx) * (qx - lam * dx) + (qy - lam * dy) * (qy - lam * dy)) /\
+  (c * c = (qx - u * dx) * (qx - u * dx) + (qy - u * dy) * (qy - u * dy)).
+Proof.
+  intros Hn Hnn W C s t c h u.
+  assert (Hn0 : n <> 0) by lra.
+  set (w := W / n).
+  assert (Hs : s = - w) by (unfold s, w, W; field; exact Hn0).
+  assert (Ht : t = w - n).
+  { transitivity (w - (n * n) / n); [|field; exact Hn0]. rewrite Hnn. unfold t, w, W. field. exact Hn0. }
+  assert (Hwn : w * n = W) by (unfold w; field; exact Hn0).
+  assert (Hcn : c * n = C) by (unfold c, C; field; exact Hn0).
+  assert (Hu : u * n = w).
+  { unfold u. rewrite <- Hnn. unfold w. field. exact Hn0. }
+  assert (Hq : w * w + c * c = qx * qx + qy * qy).
+  { apply Rmult_eq_reg_r with (n * n); [|nra].
+    transitivity ((w * n) * (w * n) + (c * n) * (c * n)); [ring|]. rewrite Hwn, Hcn, Hnn. unfold W, C. ring. }
+  assert (Hexp : forall lam, (qx - lam * dx) * (qx - lam * dx) + (qy - lam * dy) * (qy - lam * dy)
+                             = (w - lam * n) * (w - lam * n) + c * c).
+  { intros lam. transitivity ((qx * qx + qy * qy) - 2 * lam * W + lam * lam * (dx * dx + dy * dy)); [unfold W; ring|].
+    rewrite <- Hq, <- Hwn, <- Hnn. ring. }
+  assert (Hcc : c * c = C * C / (dx * dx + dy * dy)).
+  { rewrite <- Hnn, <- Hcn. field. exact Hn0. }
+  assert (Hh : h = Rmax (Rmax (- w) (w - n)) 0) by (unfold h; rewrite Hs, Ht; reflexivity).
+  repeat split.
+  - intros H0. assert (w <= 0) by nra.
+    rewrite Hh, (Rmax_left (- w) (w - n)), (Rmax_left (- w) 0) by lra. rewrite <- Hq. ring.
+  - intros H1. assert (n <= w) by nra.
+    rewrite Hh, (Rmax_right (- w) (w - n)), (Rmax_left (w - n) 0) by lra.
+    rewrite <- (Rmult_1_l dx), <- (Rmult_1_l dy), Hexp. ring.
+  - intros [H0 H1]. assert (0 <= w <= n) by nra.
+    rewrite Hh. rewrite (Rmax_right _ 0) by (apply Rmax_lub; lra). rewrite <- Hcc. ring.
+  - intros lam [L0 L1]. rewrite Hexp, Hh.
+    apply Rplus_le_compat_r.
+    assert (Hln : 0 <= lam * n <= n) by nra.
+    destruct (Rle_dec w 0) as [Hw|Hw].
+    + rewrite (Rmax_left (- w) (w - n)), (Rmax_left (- w) 0) by lra. nra.
+    + destruct (Rle_dec n w) as [Hw'|Hw'].
+      * rewrite (Rmax_right (- w) (w - n)), (Rmax_left (w - n) 0) by lra. nra.
+      * rewrite (Rmax_right _ 0) by (apply Rmax_lub; lra). rewrite Rmult_0_l. apply sq_nonneg.
+  - exact Hcc.
+  - intros lam. rewrite Hexp. pose proof (sq_nonneg (w - lam * n)). lra.
+  - rewrite Hexp, Hu. ring.
+Qed.
+
+Lemma neq_points (a b : R * R) : a <> b -> fst b - fst a <> 0 \/ snd b - snd a <> 0.
+Proof.
+  intros H. destruct a as [ax ay], b as [bx by_]. simpl.
+  destruct (Req_EM_T ax bx) as [E1|E1]; [|left; lra].
+  destruct (Req_EM_T ay by_) as [E2|E2]; [|right; lra].
+  exfalso. apply H. subst. reflexivity.
+Qed.
+Lemma same_point_test (a b : R * R) :
+  (Reqb (fst a) (fst b) && Reqb (snd a) (snd b))%bool = true <-> a = b.
+Proof.
+  destruct a as [ax ay], b as [bx by_]. simpl. rewrite andb_true_iff, !Reqb_true. split.
+  - intros [-> ->]. reflexivity.
+  - intros H. inversion H. auto.
+Qed.
+
+(* C17: shortest_distance_points returns the distance to the closed segment a-b (squared form) *)
+Theorem shortest_is_segment_distance (a b p : R * R) : a <> b ->
+  let r := @shortest_one RNum a b p in
+  let u := proj_param a b p in
+  0 <= r /\
+  (u <= 0 -> r * r = dist2 p a) /\
+  (1 <= u -> r * r = dist2 p b) /\
+  (0 <= u <= 1 -> r * r = crossR (vsubR p a) (vsubR b a) * crossR (vsubR p a) (vsubR b a) / dist2 b a) /\
+  (forall lam, 0 <= lam <= 1 -> r * r <= dist2 p (on_line a b lam)).
+Proof.
+  intros Hab r u.
+  assert (Hne := neq_points a b Hab).
+  assert (Htest : (Reqb (fst a) (fst b) && Reqb (snd a) (snd b))%bool = false).
+  { destruct (Reqb (fst a) (fst b) && Reqb (snd a) (snd b))%bool eqn:E; [|reflexivity].
+    apply same_point_test in E. contradiction. }
+  destruct a as [ax ay], b as [bx by_], p as [p1 p2].
+  simpl in Hne, Htest.
+  set (dx := bx - ax) in *. set (dy := by_ - ay) in *.
+  pose proof (sqrt_sq_sum_pos dx dy Hne) as Hn.
+  assert (Hnn : sqrtR (dx * dx + dy * dy) * sqrtR (dx * dx + dy * dy) = dx * dx + dy * dy).
+  { apply sqrt_sqrt. pose proof (sq_nonneg dx). pose proof (sq_nonneg dy). lra. }
+  pose proof (seg_core (p1 - ax) (p2 - ay) dx dy _ Hn Hnn) as HC. cbv zeta in HC.
+  destruct HC as (H1 & H2 & H3 & H4 & _).
+  assert (Hr : r * r = Rmax (Rmax ((- (p1 - ax)) * (dx / sqrtR (dx * dx + dy * dy)) + (- (p2 - ay)) * (dy / sqrtR (dx * dx + dy * dy)))
+                                   ((p1 - ax - dx) * (dx / sqrtR (dx * dx + dy * dy)) + (p2 - ay - dy) * (dy / sqrtR (dx * dx + dy * dy)))) 0
+                     * Rmax (Rmax ((- (p1 - ax)) * (dx / sqrtR (dx * dx + dy * dy)) + (- (p2 - ay)) * (dy / sqrtR (dx * dx + dy * dy)))
+                                   ((p1 - ax - dx) * (dx / sqrtR (dx * dx + dy * dy)) + (p2 - ay - dy) * (dy / sqrtR (dx * dx + dy * dy)))) 0
+                     + ((p1 - ax) * (dy / sqrtR (dx * dx + dy * dy)) - (p2 - ay) * (dx / sqrtR (dx * dx + dy * dy)))
+                       * ((p1 - ax) * (dy / sqrtR (dx * dx + dy * dy)) - (p2 - ay) * (dx / sqrtR (dx * dx + dy * dy)))
+          /\ 0 <= r).
+  { unfold r, shortest_one. simpl. rewrite Htest. unfold hypot, norm2, cross2d, psub, LinearFit.px, LinearFit.py. simpl.
+    rewrite !npmax_R. fold dx dy.
+    split; [|apply sqrt_pos].
+    replace (ax - p1) with (- (p1 - ax)) by ring. replace (ay - p2) with (- (p2 - ay)) by ring.
+    replace (p1 - bx) with (p1 - ax - dx) by (unfold dx; ring). replace (p2 - by_) with (p2 - ay - dy) by (unfold dy; ring).
+    rewrite sqrt_sqrt; [reflexivity|]. apply Rplus_le_le_0_compat; apply sq_nonneg. }
+  destruct Hr as [Hr Hr0].
+  assert (Hu : u = ((p1 - ax) * dx + (p2 - ay) * dy) / (dx * dx + dy * dy)) by reflexivity.
+  rewrite <- Hu in H1, H2, H3.
+  split; [exact Hr0|]. rewrite Hr. unfold dist2, on_line, crossR, vsubR. simpl. fold dx dy.
+  repeat split.
+  - intros Hu0. rewrite (H1 Hu0). ring.
+  - intros Hu1. rewrite (H2 Hu1). unfold dx, dy. ring.
+  - intros Hu01. rewrite (H3 Hu01). reflexivity.
+  - intros lam Hl. eapply Rle_trans; [apply (H4 lam Hl)|]. right. ring.
+Qed.
+(* ... and, when a = b, the distance to that point *)
+Theorem shortest_degenerate (a p : R * R) :
+  let r := @shortest_one RNum a a p in 0 <= r /\ r * r = dist2 p a.
+Proof.
+  intros r.
+  assert (Htest : (Reqb (fst a) (fst a) && Reqb (snd a) (snd a))%bool = true) by (apply same_point_test; reflexivity).
+  destruct a as [ax ay], p as [p1 p2]. unfold r, shortest_one. simpl in *. rewrite Htest.
+  unfold norm2, psub, LinearFit.px, LinearFit.py. simpl. split; [apply sqrt_pos|].
+  rewrite sqrt_sqrt; [reflexivity|]. apply Rplus_le_le_0_compat; apply sq_nonneg.
+Qed.
+
+(* C17: perpendicular_distance_points returns the distance to the infinite line through a and b *)
+Theorem perp_is_line_distance (a b p : R * R) : a <> b ->
+  let r := @perp_one RNum a b p in
+  0 <= r /\
+  r * r = crossR (vsubR p a) (vsubR b a) * crossR (vsubR p a) (vsubR b a) / dist2 b a /\
+  (forall lam, r * r <= dist2 p (on_line a b lam)) /\
+  r * r = dist2 p (on_line a b (proj_param a b p)).
+Proof.
+  intros Hab r.
+  assert (Hne := neq_points a b Hab).
+  destruct a as [ax ay], b as [bx by_], p as [p1 p2]. simpl in Hne.
+  set (dx := bx - ax) in *. set (dy := by_ - ay) in *.
+  pose proof (sqrt_sq_sum_pos dx dy Hne) as Hn.
+  assert (Hnn : sqrtR (dx * dx + dy * dy) * sqrtR (dx * dx + dy * dy) = dx * dx + dy * dy).
+  { apply sqrt_sqrt. pose proof (sq_nonneg dx). pose proof (sq_nonneg dy). lra. }
+  pose proof (seg_core (p1 - ax) (p2 - ay) dx dy _ Hn Hnn) as HC. cbv zeta in HC.
+  destruct HC as (_ & _ & _ & _ & H5 & H6 & H7).
+  set (n := sqrtR (dx * dx + dy * dy)) in *.
+  assert (Hr : r * r = ((p1 - ax) * (dy / n) - (p2 - ay) * (dx / n)) * ((p1 - ax) * (dy / n) - (p2 - ay) * (dx / n)) /\ 0 <= r).
+  { unfold r, perp_one. simpl. unfold norm2, cross2d, psub, LinearFit.px, LinearFit.py. simpl. fold dx dy. fold n.
+    split; [|apply Rabs_pos].
+    rewrite <- Rabs_mult. rewrite Rabs_pos_eq by apply sq_nonneg. field. lra. }
+  destruct Hr as [Hr Hr0]. split; [exact Hr0|]. rewrite Hr.
+  unfold dist2, on_line, crossR, vsubR, proj_param. simpl. fold dx dy.
+  repeat split.
+  - rewrite H5. reflexivity.
+  - intros lam. eapply Rle_trans; [apply (H6 lam)|]. right. ring.
+  - rewrite H7. unfold dist2. simpl. fold dx dy. ring.
+Qed.
+
+(* C17 (Tier S: any arithmetic): the index variant is the point variant on exactly the sub-range [left, right] *)
+Section PerpIndex.
+  Context {N : Num}.
+  Lemma nth_skipn' {A} (l : list A) : forall j k d, nth k (skipn j l) d = nth (j + k) l d.
+  Proof.
+    induction l as [|a l IH]; intros [|j] k d; cbn [skipn]; auto.
+    - destruct k; auto.
+    - rewrite IH. reflexivity.
+  Qed.
+  Lemma nth_firstn' {A} (l : list A) : forall n k d, (k < n)%nat -> nth k (firstn n l) d = nth k l d.
+  Proof.
+    induction l as [|a l IH]; intros [|n] [|k] d H; cbn; auto; try lia. apply IH. lia.
+  Qed.
+  Theorem perp_index_is_subrange (P : list (@pt N)) (lft rgt : nat) :
+    (lft <= rgt)%nat -> (rgt < length P)%nat ->
+    length (perpendicular_distance_index P lft rgt) = (rgt - lft + 1)%nat /\
+    forall k, (k <= rgt - lft)%nat ->
+      nth k (perpendicular_distance_index P lft rgt) zero
+      = perp_one (nth lft P pzero) (nth rgt P pzero) (nth (lft + k) P pzero).
+  Proof.
+    intros Hlr Hr. unfold perpendicular_distance_index, perpendicular_distance_points, slice. split.
+    - rewrite map_length, firstn_length, skipn_length. lia.
+    - intros k Hk.
+      set (f := perp_one (nth lft P pzero) (nth rgt P pzero)).
+      assert (Hlen : (k < length (firstn (rgt + 1 - lft) (skipn lft P)))%nat).
+      { rewrite firstn_length, skipn_length. lia. }
+      rewrite (nth_indep _ zero (f pzero)) by (rewrite map_length; exact Hlen).
+      rewrite map_nth. f_equal. rewrite nth_firstn' by lia. apply nth_skipn'.
+  Qed.
+  (* perpendicular_distance(points) is the index variant on the whole array *)
+  Theorem perpendicular_distance_whole (P : list (@pt N)) :
+    perpendicular_distance P = perpendicular_distance_points P (nth 0 P pzero) (nth (length P - 1) P pzero).
+  Proof.
+    unfold perpendicular_distance, perpendicular_distance_index, slice. cbn [skipn].
+    destruct P as [|p0 P']; [reflexivity|].
+    replace (length (p0 :: P') - 1 + 1 - 0)%nat with (length (p0 :: P')) by (simpl; lia).
+    rewrite firstn_all. reflexivity.
+  Qed.
+End PerpIndex.
